@@ -273,6 +273,50 @@ def assigned_names(stmts):
     return out
 
 
+def names_assigned_only_on_the_way_out(body):
+    """names every store of which (in the body of the summarised loop) is a plain assignment in a block that ends in `break`
+    with nothing but plain assignments / expression statements between the store and the break: at every loop head and after
+    a normal completion such a name still holds its value from before the loop, so it is not havocked"""
+    stores = {}
+
+    def block(stmts, in_inner_loop):
+        ends_in_break = bool(stmts) and isinstance(stmts[-1], ast.Break) and not in_inner_loop
+        for idx, st in enumerate(stmts):
+            simple_tail = all(isinstance(x, (ast.Assign, ast.AugAssign, ast.Expr)) for x in stmts[idx + 1:-1])
+            if isinstance(st, ast.Assign) and all(isinstance(t, ast.Name) for t in st.targets):
+                for t in st.targets:
+                    stores.setdefault(t.id, []).append(ends_in_break and simple_tail)
+                for n in ast.walk(st.value):
+                    if isinstance(n, ast.Name) and isinstance(n.ctx, ast.Store):      # walrus
+                        stores.setdefault(n.id, []).append(False)
+                continue
+            if isinstance(st, (ast.If, ast.With, ast.Try)):
+                for fld in ('body', 'orelse', 'finalbody'):
+                    block(getattr(st, fld, []) or [], in_inner_loop)
+                for h in getattr(st, 'handlers', []):
+                    if h.name:
+                        stores.setdefault(h.name, []).append(False)
+                    block(h.body, in_inner_loop)
+                for n in ast.walk(st.test) if isinstance(st, ast.If) else []:
+                    if isinstance(n, ast.Name) and isinstance(n.ctx, ast.Store):
+                        stores.setdefault(n.id, []).append(False)
+                for it_ in getattr(st, 'items', []):
+                    for n in ast.walk(it_):
+                        if isinstance(n, ast.Name) and isinstance(n.ctx, ast.Store):
+                            stores.setdefault(n.id, []).append(False)
+                continue
+            if isinstance(st, (ast.While, ast.For)):
+                for n in ast.walk(st):
+                    if isinstance(n, ast.Name) and isinstance(n.ctx, ast.Store):
+                        stores.setdefault(n.id, []).append(False)
+                continue
+            for n in ast.walk(st):
+                if isinstance(n, ast.Name) and isinstance(n.ctx, ast.Store):
+                    stores.setdefault(n.id, []).append(False)
+    block(list(body), False)
+    return {nm for nm, flags in stores.items() if flags and all(flags)}
+
+
 def havoc(it, env, names, fresh_int, tag):
     for nm in sorted(names):
         try:
@@ -297,7 +341,7 @@ def install_loop_rules(it, run, log, fresh_int):
             return None
         k = state['for']
         state['for'] += 1
-        names = assigned_names(s.body) | ({s.target.id} if isinstance(s.target, ast.Name) else set())
+        names = (assigned_names(s.body) - names_assigned_only_on_the_way_out(s.body)) | ({s.target.id} if isinstance(s.target, ast.Name) else set())
         lo, hi = rng.lo, rng.hi
         # accumulate-constant loop:  for _ in range(n): X += <constant bytes>
         if len(s.body) == 1 and isinstance(s.body[0], ast.AugAssign) and isinstance(s.body[0].op, ast.Add) \
@@ -339,7 +383,11 @@ def install_loop_rules(it, run, log, fresh_int):
         except I._Continue:
             pass
         except I._Break:
-            raise I.Unsupported('break out of a summarised loop')
+            # the loop is left from an arbitrary iteration: the variables keep the values of that iteration (no havoc), the
+            # iteration did not complete; what may follow a break is decided by the loop-break obligations of cli_main
+            run.effects.append(('loop-break', ('for', k), start, len(run.pc), run.notes.get('last_status'), run.notes.get('last_state'), kv))
+            run.notes['loop'] = None
+            return True
         run.effects.append(('body-end', ('for', k), start, len(run.pc), run.notes.get('last_status'), run.notes.get('last_state')))
         havoc(itp, env, names, fresh_int, 'after_for%d' % k)
         run.notes['last_state'] = None
@@ -521,25 +569,46 @@ def obligations_cli(ctx, base_it, env):
                                      'what': 'a GETSTATUS response is not followed by a wait of its bwPollTimeout before the next request'}))
         erase_loops, padded_len = {}, {}
         # loop bodies
+        run_fails = p.kind == 'raise' and p.exc_name == 'SystemExit' and bool(p.value.fields.get('args')) \
+            and not (p.value.fields['args'][0] is None or (isinstance(p.value.fields['args'][0], int) and p.value.fields['args'][0] == 0))
         for e in p.effects:
-            if e[0] != 'body-end':
+            if e[0] not in ('body-end', 'loop-break'):
                 continue
-            _, loop, start, pclen, last_status, last_state = e
+            _, loop, start, pclen, last_status, last_state = e[:6]
             effs = p.effects[start:p.effects.index(e)]
             dn = [x for x in effs if x[0] == 'ctrl' and x[2] == 1]
             if not dn:
                 continue
             hyp = list(p.pc[:pclen])
-            # C19 (b)
-            goal = (last_status.t == 0) if I.is_sym(last_status) else z3.BoolVal(False)
-            ctx.add(Obligation('dfu.cli_main/path%d/C19b-%s%d-iteration-completes-only-with-status-OK' % (i, loop[0], loop[1]), hyp, goal, 'INT',
-                               func='dfu.cli_main', kind='effect',
-                               meta={'replay': ('dfu', {'props': ['C19'], 'key_prefix': 'device-error'}), 'props': ['C19'],
-                                     'what': 'an erase/write step continues after the device reported an error status'}))
-            # C18: not busy at the end of the iteration (loop-head invariant) and at every later request inside it
-            goal = (last_state.t != DNBUSY) if I.is_sym(last_state) else z3.BoolVal(False)
-            ctx.add(Obligation('dfu.cli_main/path%d/C18-%s%d-iteration-ends-with-device-not-busy' % (i, loop[0], loop[1]), hyp, goal, 'INT',
-                               func='dfu.cli_main', kind='invariant', cover=False, meta={'replay': ('dfu', {'props': ['C18']}), 'props': ['C18']}))
+            if e[0] == 'loop-break':
+                # the iteration that sent a request left the loop by `break`: (C19) if the device had reported an error status the run
+                # must end in a failure exit; (C18) a run that ends in success must not have skipped the remaining pages
+                kv = e[6]
+                rng = p.notes.get('ranges', {}).get(loop[1])
+                err = (last_status.t != 0) if I.is_sym(last_status) else z3.BoolVal(True)
+                ctx.add(Obligation('dfu.cli_main/path%d/C19b-%s%d-left-by-break-with-an-error-status-ends-in-a-failure-exit' % (i, loop[0], loop[1]),
+                                   list(p.pc) + [err], z3.BoolVal(bool(run_fails)), 'INT', func='dfu.cli_main', kind='effect', cover=False,
+                                   meta={'replay': ('dfu', {'props': ['C19'], 'key_prefix': 'device-error'}), 'props': ['C19'],
+                                         'what': 'the loop is left after an error status and the run does not end in a failure exit'}))
+                last_iter = z3.BoolVal(False)
+                if rng is not None and I.is_sym(kv):
+                    hi_ = rng[1]
+                    last_iter = kv.t + rng[2] >= (hi_.t if I.is_sym(hi_) else z3.IntVal(int(hi_)))
+                ctx.add(Obligation('dfu.cli_main/path%d/C18-%s%d-left-by-break-only-on-failure-or-in-the-last-iteration' % (i, loop[0], loop[1]),
+                                   list(p.pc), z3.Or(z3.BoolVal(bool(run_fails)), last_iter), 'INT', func='dfu.cli_main', kind='effect', cover=False,
+                                   meta={'replay': ('dfu', {'props': ['C18']}), 'props': ['C18'],
+                                         'what': 'a run that ends in success left an erase/write loop early: the remaining pages are not processed'}))
+            else:
+                # C19 (b)
+                goal = (last_status.t == 0) if I.is_sym(last_status) else z3.BoolVal(False)
+                ctx.add(Obligation('dfu.cli_main/path%d/C19b-%s%d-iteration-completes-only-with-status-OK' % (i, loop[0], loop[1]), hyp, goal, 'INT',
+                                   func='dfu.cli_main', kind='effect',
+                                   meta={'replay': ('dfu', {'props': ['C19'], 'key_prefix': 'device-error'}), 'props': ['C19'],
+                                         'what': 'an erase/write step continues after the device reported an error status'}))
+                # C18: not busy at the end of the iteration (loop-head invariant) and at every later request inside it
+                goal = (last_state.t != DNBUSY) if I.is_sym(last_state) else z3.BoolVal(False)
+                ctx.add(Obligation('dfu.cli_main/path%d/C18-%s%d-iteration-ends-with-device-not-busy' % (i, loop[0], loop[1]), hyp, goal, 'INT',
+                                   func='dfu.cli_main', kind='invariant', cover=False, meta={'replay': ('dfu', {'props': ['C18']}), 'props': ['C18']}))
             for j, x in enumerate(dn[1:], 1):
                 lst = x[8] if len(x) > 8 else None
                 ctx.add(Obligation('dfu.cli_main/path%d/C19b-%s%d-request%d-only-after-the-previous-one-ended-with-status-OK' % (i, loop[0], loop[1], j),
